@@ -8,8 +8,17 @@
 // the test body (the framework's own allocations inside the window - the Utest object of every test - are the real
 // situation), the final report is taken, every still outstanding block is released, the overloads are switched off,
 // and only then the recorded failures are compared with the model.
+//
+// Extension (seeded change C07-s2): (1) the run's TestOutput is decoded per case: the non-allocating StringBufferTestOutput,
+// a collecting output that keeps `new TestFailure(f)` + a `new char[n]` per printed failure (until the end of the run or
+// beyond the final report), or the real JUnitTestOutput with the file seams stubbed (keeps a node per test and a copy of
+// the first failure of each test until the group ends).  Those blocks are tracked but allocated outside the test's checking
+// period (or, for an own failure, inside it - then the test has failed anyway): never a test's leak; they appear in the
+// final report iff still held then.  (2) a script step "leak k blocks" (k = 1..150, never released by a test), so that the
+// output's retained blocks share hash buckets (address % 73) with a test's leaked blocks as a rule, not by luck.
 #include "common.h"
 #include "CppUTest/TestHarness_c.h"
+#include "CppUTest/JUnitTestOutput.h"
 #include <set>
 #include <algorithm>
 #include <tuple>
@@ -23,8 +32,9 @@ using verif::sfmt;
 
 namespace {
 
-enum { MAXT = 16, NSLOT = 16, MAXOPS = 8, MAXBLK = MAXT * 3 * MAXOPS, MAXFAIL = 4, MSGLEN = SimpleStringBuffer::SIMPLE_STRING_BUFFER_LEN + 64 };
-enum Kind { K_NEW = 0, K_NEWARR = 1, K_MALLOC = 2, K_RELEASE, K_EXPECT, K_IGNORE, K_CHECK, K_FAIL };
+enum { MAXT = 16, NSLOT = 16, MAXOPS = 8, BULKMAX = 150, BULKTOTAL = 1200, MAXKEPT = 2 * MAXT * 4, MAXBLK = MAXT * 3 * MAXOPS + BULKTOTAL + MAXKEPT, MAXFAIL = 4, MSGLEN = SimpleStringBuffer::SIMPLE_STRING_BUFFER_LEN + 64 };
+enum Kind { K_NEW = 0, K_NEWARR = 1, K_MALLOC = 2, K_RELEASE, K_EXPECT, K_IGNORE, K_CHECK, K_FAIL, K_BULK };
+enum OutMode { OUT_PLAIN = 0, OUT_COLLECTING = 1, OUT_JUNIT = 2 };
 const char* fam_name[3] = {"new", "new[]", "malloc"};
 const char* phase_name[3] = {"setup", "body", "teardown"};
 
@@ -57,6 +67,16 @@ void run_phase(int t, int ph) {             // NON-ALLOCATING interpreter = the 
             memset(p, 0x41 + (o.blk % 26), o.size);
             b.p = p; g_slot_ptr[o.slot] = p;
             break; }
+        case K_BULK:                                     // leak k blocks of one family and size
+            for (unsigned j = 0; j < o.k; j++) {
+                Blk& b = g_blk[o.blk + (int)j];
+                b.num = g_det->getCurrentAllocationNumber();
+                char* p = o.fam == K_NEW ? (char*)::operator new(o.size) : o.fam == K_NEWARR ? (char*)::operator new[](o.size)
+                                         : (char*)cpputest_malloc_location(o.size, "script.c", (size_t)(100 + t));
+                memset(p, 0x61 + (int)(j % 26), o.size);
+                b.p = p;
+            }
+            break;
         case K_RELEASE: {
             char* p = g_slot_ptr[o.slot]; g_slot_ptr[o.slot] = NULLPTR;
             if (o.fam == K_NEW) ::operator delete(p); else if (o.fam == K_NEWARR) ::operator delete[](p); else cpputest_free_location(p, "script.c", (size_t)(200 + t));
@@ -84,6 +104,33 @@ struct ScriptShell : UtestShell {
 };
 ScriptShell* g_shell[MAXT];
 
+// what an allocating output keeps: fixed table, filled inside the window
+struct Kept { void* p; unsigned num; size_t size; bool is_failure; };
+Kept g_kept[MAXKEPT]; int g_nkept; int g_kept_dropped;
+struct CollectingOutput : StringBufferTestOutput {       // "any collecting output": keeps a copy of every failure it prints
+    void printFailure(const TestFailure& f) CPPUTEST_OVERRIDE {
+        if (g_nkept + 2 <= MAXKEPT) {
+            unsigned num = g_det->getCurrentAllocationNumber();
+            TestFailure* copy = new TestFailure(f);                     // tracked (overloads are on); its strings are plain malloc
+            g_kept[g_nkept].p = copy; g_kept[g_nkept].num = num; g_kept[g_nkept].size = sizeof(TestFailure); g_kept[g_nkept].is_failure = true; g_nkept++;
+            size_t n = 1 + (size_t)(g_nkept * 7 % 23);
+            num = g_det->getCurrentAllocationNumber();
+            char* note = new char[n]; memset(note, '#', n);
+            g_kept[g_nkept].p = note; g_kept[g_nkept].num = num; g_kept[g_nkept].size = n; g_kept[g_nkept].is_failure = false; g_nkept++;
+        } else g_kept_dropped++;
+        StringBufferTestOutput::printFailure(f);
+    }
+    bool release_at_end_of_run = true;
+    void printTestsEnded(const TestResult& result) CPPUTEST_OVERRIDE { StringBufferTestOutput::printTestsEnded(result); if (release_at_end_of_run) releaseAll(); }
+    static void releaseAll() {
+        for (int i = 0; i < g_nkept; i++) { if (g_kept[i].is_failure) delete (TestFailure*)g_kept[i].p; else delete[] (char*)g_kept[i].p; }
+        g_nkept = 0;
+    }
+};
+PlatformSpecificFile stub_fopen(const char*, const char*) { static int handle; return &handle; }
+void stub_fputs(const char*, PlatformSpecificFile) {}
+void stub_fclose(PlatformSpecificFile) {}
+
 struct RecResult : TestResult {
     explicit RecResult(TestOutput& o) : TestResult(o) {}
     void addFailure(const TestFailure& f) CPPUTEST_OVERRIDE {
@@ -108,6 +155,7 @@ struct TestModel {
     std::vector<int> leaks;          // blocks allocated during this test and still outstanding at its end
     bool leak_failure = false;
     bool cross_release = false, edge_leak = false, expect_nonzero = false;
+    int bulk = 0;
 };
 
 struct Entry { unsigned num; unsigned long size; std::string addr; bool operator<(const Entry& o) const { return std::tie(num, size, addr) < std::tie(o.num, o.size, o.addr); } bool operator==(const Entry& o) const { return num == o.num && size == o.size && addr == o.addr; } };
@@ -158,6 +206,10 @@ int run_case(Reader& r, bool& nontrivial, std::string& desc) {
     // ---- decode + model ----
     memset(g_script, 0, sizeof g_script); g_nblk = 0;
     g_ntests = 1 + (int)r.below(MAXT);
+    int outmode = (int)r.below(3);
+    bool keep_beyond_final = outmode == OUT_COLLECTING && r.flag();
+    int bulk_total = 0;
+    desc += outmode == OUT_PLAIN ? "" : outmode == OUT_JUNIT ? "[junit output] " : keep_beyond_final ? "[collecting output, kept beyond the final report] " : "[collecting output] ";
     int slot_blk[NSLOT]; for (int i = 0; i < NSLOT; i++) slot_blk[i] = -1;
     std::vector<TestModel> model((size_t)g_ntests);
     static const int phase_max[3] = {3, 6, 3};
@@ -173,10 +225,20 @@ int run_case(Reader& r, bool& nontrivial, std::string& desc) {
             if (n) desc += sfmt("%s:", phase_name[ph]);
             for (int i = 0; i < n && !stopped; i++) {
                 Op& o = P.ops[P.n]; memset(&o, 0, sizeof o);
-                uint32_t kind = r.below(10);       // 0-3 alloc, 4-6 release, 7 expect/ignore, 8 check, 9 own failure
+                uint32_t kind = r.below(11);       // 0-3 alloc, 4-6 release, 7 expect/ignore, 8 check, 9 own failure, 10 leak k blocks
                 int slot = r.chance(1, 2) ? (int)r.below(4) : (int)r.below(NSLOT);
                 o.slot = slot;
-                if (kind <= 6) {
+                if (kind == 10) {
+                    unsigned k = 1 + r.below(BULKMAX);
+                    if (bulk_total + (int)k > BULKTOTAL) k = (unsigned)(BULKTOTAL - bulk_total);
+                    if (k == 0) { o.kind = K_CHECK; desc += "CHECK(ok) "; }
+                    else {
+                        o.kind = K_BULK; o.fam = (int)r.below(3); o.size = r.below(25); o.k = k; o.blk = g_nblk; bulk_total += (int)k;
+                        for (unsigned j = 0; j < k; j++) { Blk& b = g_blk[g_nblk++]; b.p = NULLPTR; b.num = 0; b.size = o.size; b.fam = o.fam; b.owner = t; b.phase = ph; b.live = true; }
+                        M.bulk += (int)k;
+                        desc += sfmt("leak %u x %s(%zu) ", k, fam_name[o.fam], o.size);
+                    }
+                } else if (kind <= 6) {
                     bool want_alloc = kind <= 3;
                     if (want_alloc && slot_blk[slot] >= 0) want_alloc = false;       // occupied: release instead
                     else if (!want_alloc && slot_blk[slot] < 0) want_alloc = true;   // empty: allocate instead
@@ -215,6 +277,7 @@ int run_case(Reader& r, bool& nontrivial, std::string& desc) {
     bool any_cross = false, any_edge = false, any_expect = false; int leakfails = 0, ownfails = 0;
     for (auto& M : model) { any_cross |= M.cross_release; any_edge |= M.edge_leak; any_expect |= M.expect_nonzero; leakfails += M.leak_failure; ownfails += M.own_failures; }
     nontrivial = (g_ntests >= 2 && (any_cross || any_edge)) || any_expect;
+    if (outmode != OUT_PLAIN && g_ntests >= 2) for (int t = 0; t + 1 < g_ntests; t++) if (model[(size_t)t].leak_failure) nontrivial = true;   // allocating output prints a leak failure, a test follows
     if (verif::g_explain) fprintf(stderr, "  program: %s\n", desc.c_str());
 
     // ---- reset the process-wide state the case touches ----
@@ -223,7 +286,11 @@ int run_case(Reader& r, bool& nontrivial, std::string& desc) {
     memset(g_nfail, 0, sizeof g_nfail); g_unattributed = 0; g_final[0] = 0;
     for (int i = 0; i < NSLOT; i++) g_slot_ptr[i] = NULLPTR;
     size_t residue_before = g_det->totalMemoryLeaks(mem_leak_period_all);
-    StringBufferTestOutput output;
+    g_nkept = 0; g_kept_dropped = 0;
+    StringBufferTestOutput plain_output;
+    CollectingOutput collecting_output; collecting_output.release_at_end_of_run = !keep_beyond_final;
+    JUnitTestOutput junit_output;
+    TestOutput& output = outmode == OUT_PLAIN ? (TestOutput&)plain_output : outmode == OUT_COLLECTING ? (TestOutput&)collecting_output : (TestOutput&)junit_output;
     RecResult result(output);
     TestRegistry registry;
     for (int t = g_ntests - 1; t >= 0; t--) registry.addTest(g_shell[t]);
@@ -240,15 +307,32 @@ int run_case(Reader& r, bool& nontrivial, std::string& desc) {
         size_t len = strlen(fr); if (len > MSGLEN - 1) len = MSGLEN - 1;
         memcpy(g_final, fr, len); g_final[len] = 0;
     }
-    for (int i = 0; i < NSLOT; i++) {                 // give everything back so the next case starts from nothing
-        if (slot_blk[i] < 0) continue;
-        char* p = g_slot_ptr[i]; int fam = g_blk[slot_blk[i]].fam;
+    int kept_at_final = g_nkept;                      // what the collecting output still holds is outstanding, hence in the final report
+    static Kept kept_copy[MAXKEPT]; memcpy(kept_copy, g_kept, sizeof(Kept) * (size_t)(kept_at_final > 0 ? kept_at_final : 0));
+    CollectingOutput::releaseAll();
+    for (int b = 0; b < g_nblk; b++) {                // give everything back so the next case starts from nothing
+        if (!g_blk[b].live) continue;
+        char* p = g_blk[b].p; int fam = g_blk[b].fam;
         if (fam == K_NEW) ::operator delete(p); else if (fam == K_NEWARR) ::operator delete[](p); else cpputest_free_location(p, "cleanup.c", 1);
     }
     MemoryLeakWarningPlugin::turnOffNewDeleteOverloads();
     // ---- window closed ----
     registry.resetPlugins();
     size_t residue_after = g_det->totalMemoryLeaks(mem_leak_period_all);
+    for (int i = 0; i < kept_at_final; i++) {         // model: outstanding at the final report, owned by no test
+        Blk& b = g_blk[g_nblk]; b.p = (char*)kept_copy[i].p; b.num = kept_copy[i].num; b.size = kept_copy[i].size; b.fam = K_NEW; b.owner = -1; b.phase = 1; b.live = false;
+        final_blocks.push_back(g_nblk++);
+    }
+    int bulk_tests = 0, printed_leak_failures_before_last = 0;
+    for (int t = 0; t < g_ntests; t++) { if (model[(size_t)t].bulk) bulk_tests++; if (model[(size_t)t].leak_failure && t + 1 < g_ntests) printed_leak_failures_before_last++; }
+    verif::cls(outmode == OUT_PLAIN ? "output:plain(non-allocating)" : outmode == OUT_JUNIT ? "output:junit" : keep_beyond_final ? "output:collecting-kept-beyond-final-report" : "output:collecting");
+    if (bulk_tests) verif::cls("program:has-bulk-leak-step");
+    if (outmode != OUT_PLAIN && printed_leak_failures_before_last) {
+        verif::cls("program:allocating-output-printed-a-leak-failure-before-a-later-test");
+        for (int t = 0; t + 1 < g_ntests; t++) if (model[(size_t)t].leak_failure && model[(size_t)t].leaks.size() >= 73) { verif::cls("program:>=73-leaks-reported-through-allocating-output-then-later-test"); break; }
+    }
+    if (kept_at_final) verif::cls("program:output-blocks-in-final-report");
+    V_CHECK(g_kept_dropped == 0, "C07:harness-kept-table-overflow", "collecting output table overflow (harness bound)");
 
     verif::cls(sfmt("tests:%s", g_ntests == 1 ? "1" : g_ntests <= 4 ? "2-4" : g_ntests <= 8 ? "5-8" : "9-16").c_str());
     if (any_cross) verif::cls("program:releases-earlier-tests-block");
@@ -305,6 +389,7 @@ int run_case(Reader& r, bool& nontrivial, std::string& desc) {
 extern "C" const char* verif_property(void) { return "C07"; }
 extern "C" void verif_init(void) {
     verif::install_fake_time();
+    PlatformSpecificFOpen = stub_fopen; PlatformSpecificFPuts = stub_fputs; PlatformSpecificFClose = stub_fclose;     // JUnitTestOutput writes nowhere
     for (int t = 0; t < MAXT; t++) { snprintf(g_names[t], sizeof g_names[t], "t%02d", t); g_shell[t] = new ScriptShell(t); }
     g_plugin = (MemoryLeakWarningPlugin*)::operator new(sizeof(MemoryLeakWarningPlugin));
     new (g_plugin) MemoryLeakWarningPlugin("VerifLeakPlugin");     // the first plugin ever constructed: what EXPECT_N_LEAKS / IGNORE_ALL_LEAKS_IN_TEST talk to
